@@ -131,6 +131,18 @@ def evaluate(case):
     added2 = np.asarray(Gon2, dtype=float) - np.asarray(Goff2, dtype=float)
     if exceeds(np.abs(added2 - added)[pos].max(initial=0.0), 1e-9 * max(float(np.abs(Goff).max()), float(np.abs(Goff2).max()), sc)):
         fails.append("added term changes when interior data change (must depend on Qmin, S(Qmin), Qmax only)")
+    # the added term at an output point does not depend on where that point stands in the r grid (descending, or 0 in the middle)
+    if len(r) >= 3:
+        perm = np.concatenate([np.arange(1, len(r))[::-1], [0]]) if len(r) % 2 else np.roll(np.arange(len(r)), len(r) // 2)
+        with np.errstate(all="ignore"):
+            p_on = np.asarray(fn(q, y, r[perm], OmittedXrangeCorrection=True, **kw)[1], dtype=float)
+            p_off = np.asarray(fn(q, y, r[perm], **kw)[1], dtype=float)
+            d_on = np.asarray(w_on, dtype=float) - np.asarray(w_off, dtype=float)
+        d_p = p_on - p_off
+        okp = np.isfinite(d_on[perm]) & np.isfinite(d_p)
+        if okp.any() and exceeds(np.abs(d_p - d_on[perm])[okp].max(), 1e-9 * max(float(np.abs(d_on[np.isfinite(d_on)]).max(initial=0.0)), 1e-300) + 1e-12 * float(np.abs(Goff).max())):
+            j = int(np.argmax(np.abs(d_p - d_on[perm]) * okp))
+            fails.append(f"{inp}_to_{out}: the added term at r={r[perm][j]!r} is {d_p[j]!r} when the r grid is listed in another order, {d_on[perm][j]!r} in ascending order")
     # the r grid as whole numbers held in an integer array: the same added term as for the same grid held as floats
     rw = np.arange(1, 2 + len(r) % 4, dtype=np.int64)
     with np.errstate(all="ignore"):
